@@ -24,10 +24,10 @@ def _reg(prop):
     return run
 
 
-def _kani(prop):
+def _kani(prop, group='float'):
     def run(tier):
         from extract import check
-        return check.kani_float_axioms(prop)(tier)
+        return check.kani_harnesses(prop, group)(tier)
     return run
 
 
@@ -60,8 +60,8 @@ PROPERTIES = {
     'C06': dict(units=ENGINES, extra=[_reg('C06')], explanation='on every fixture expansion the ttl attribute arrives at the constructor as written (structural); is_expired == (age >= ttl) and the get postconditions never_serves_expired / purges_expired / serves_unexpired, for all ttl and ages'),
     'C04': dict(units=ENGINES + ['wrappers_global', 'wrappers_async'], extra=[_reg('C04')], explanation='on every fixture expansion the limit attribute arrives at the constructor as written (structural); wf / bound / exact-victim postconditions of insert and of the entry-limit eviction, all N, all six policies; the invalidation callbacks and wrappers emitted by the macros preserve the representation invariant the capacity bookkeeping rests on (queue and store hold exactly the same keys, once each)'),
     'C01': dict(units=ENGINES + WRAPPERS, explanation='get returns a clone of the value stored under exactly this key; insert: last store wins, survivors unchanged'),
-    'C07': dict(units=ENGINES + ['policy', 'wrappers_global', 'wrappers_async'], extra=[_reg('C07')], explanation='on every fixture expansion the policy attribute arrives at the constructor as written (sync: the variant; async: the string, and EvictionPolicy::from maps every policy name to its own variant: unit policy); queue postconditions: hit_recency, store moves key to back, FIFO/LRU victim is the queue front; the conditional-invalidation callbacks emitted by the macros keep the relative queue order of the survivors (queue_order_preserved)'),
-    'C08': dict(units=ENGINES_SCORES + ['policy', 'wrappers_global', 'wrappers_async'], extra=[_kani('C08'), _reg('C08')], explanation='policy and frequency_weight attributes arrive at the constructor as written (structural; EvictionPolicy::from verified in unit policy); hit_counts postcondition and argmin postconditions of the scoring helpers'),
+    'C07': dict(units=ENGINES + ['policy', 'wrappers_global', 'wrappers_async'], extra=[_reg('C07'), _kani('C07', 'policy')], explanation='on every fixture expansion the policy attribute arrives at the constructor as written (sync: the variant; async: the string, and EvictionPolicy::from maps every policy name to its own variant: unit policy); queue postconditions: hit_recency, store moves key to back, FIFO/LRU victim is the queue front; the conditional-invalidation callbacks emitted by the macros keep the relative queue order of the survivors (queue_order_preserved)'),
+    'C08': dict(units=ENGINES_SCORES + ['policy', 'wrappers_global', 'wrappers_async'], extra=[_kani('C08'), _kani('C08', 'policy'), _reg('C08')], explanation='policy and frequency_weight attributes arrive at the constructor as written (structural; EvictionPolicy::from verified in unit policy); hit_counts postcondition and argmin postconditions of the scoring helpers'),
     'C05': dict(units=ENGINES + ['memory_estimator', 'wrappers_global', 'wrappers_async'], extra=[_reg('C05')], explanation='on every fixture expansion the max_memory attribute arrives at the constructor in bytes, KB/MB/GB as powers of 1024 (structural); the invalidation callbacks emitted by the macros preserve the representation invariant the memory accounting rests on; insert_with_memory: total <= max_memory after every store, oversize value not cached and displaces nothing, no eviction while the total fits, FIFO/LRU victims are the oldest; memory totals are a proved fold along the queue (no total axioms); unit memory_estimator: the built-in estimators (String, Vec, Option, Result, 2-/3-tuples, Box) return inline size + owned heap capacity, recursively, without underflow',
                 assumptions=['hit counters never saturate (u64::MAX hits on one entry)', 'sum of the estimates fits usize (machine arithmetic)']),
     'C02': dict(units=WRAPPERS + ['keys'], explanation='wrapper contracts: on every fixture expansion the cache is read and written under exactly key_str(d(p1) + "|" + d(p2) ...) with every parameter (and the receiver) present in order, d = Debug rendering (keys.rs blanket impl verified); lemmas: such keys are injective on argument tuples when each rendering is injective and "|"-safe',
@@ -80,5 +80,5 @@ PROPERTIES = {
     'C13': dict(units=['registry', 'wrappers_global', 'wrappers_async'] + ENGINES, extra=[_reg('C13')],
                 explanation='conditional-invalidation callbacks as emitted by the real macros (one verified representative per emitted shape): exactly the stored keys satisfying the predicate leave store and queue, survivors untouched, queue order preserved, representation invariant re-established -- so that by the engine contracts later limits / evictions / totals are those of a cache in which the keys were never stored',
                 assumptions=['R8: the user predicate is a pure function of the key; the closure invalidate_all_with builds around it is abstracted to "the predicate specialised to that cache name"']),
-    'C15': dict(units=ENGINES + ['interference', 'stats_registry'], extra=[_reg('C15')], explanation='exactly one of hits/misses is bumped by exactly one per lookup, a hit exactly when an unexpired entry was found (all three engines); the same under the interference projection (every lock acquisition sees arbitrarily changed data) for the global and async lookups; CacheStats methods; stats_registry register/get/reset/clear (retrievable under the name, reset touches only that entry); every expansion registers its statistics under `name` or the function name (structural)', assumptions=['fetch_add on AtomicU64 is an atomic read-modify-write (std): with exactly one fetch_add(1) per lookup the totals are exact under any interleaving']),
+    'C15': dict(units=ENGINES + ['interference', 'stats_registry'], extra=[_reg('C15'), _kani('C15', 'stats')], explanation='exactly one of hits/misses is bumped by exactly one per lookup, a hit exactly when an unexpired entry was found (all three engines); the same under the interference projection (every lock acquisition sees arbitrarily changed data) for the global and async lookups; CacheStats methods; stats_registry register/get/reset/clear (retrievable under the name, reset touches only that entry); every expansion registers its statistics under `name` or the function name (structural)', assumptions=['fetch_add on AtomicU64 is an atomic read-modify-write (std): with exactly one fetch_add(1) per lookup the totals are exact under any interleaving; the sequential behaviour of the REAL CacheStats (wrapping +1 on one counter only, reset, clone) is proved by Kani in the thorough tier on stats.rs compiled in place']),
 }
